@@ -23,7 +23,8 @@ func tableSort(L *LState) int {
 	tbl := L.CheckTable(1)
 	// sort the list t[1..#t], not the trailing nils the array part may still hold
 	sorter := lValueArraySorter{L, nil, tbl.array[:tbl.Len()]}
-	if L.GetTop() != 1 {
+	if L.GetTop() != 1 && L.Get(2) != LNil {
+		// a nil comparator is no comparator
 		sorter.Fn = L.CheckFunction(2)
 	}
 	sort.Sort(sorter)
@@ -85,8 +86,8 @@ func tableConcat(L *LState) int {
 func tableInsert(L *LState) int {
 	tbl := L.CheckTable(1)
 	nargs := L.GetTop()
-	if nargs == 1 {
-		L.RaiseError("wrong number of arguments")
+	if nargs != 2 && nargs != 3 {
+		L.RaiseError("wrong number of arguments to 'insert'")
 	}
 
 	if L.GetTop() == 2 {
